@@ -59,6 +59,8 @@ def check(prog, rep):
     rule_suppression(prog, rep)
     rule_registration(prog, rep)
     rule_columns(prog, rep)
+    from .shared import rule_hidden_chains_model
+    rep.guarded(rule_hidden_chains_model, prog, rep, "R12")
     grouping = ingestion_decided_on_models(prog, rep, "R11")
     if not grouping:
         rule_identity(prog, rep)  # shape-based formulation of what the model record lists decide
